@@ -1,8 +1,6 @@
 package sm
 
 import (
-	"io"
-
 	"github.com/fiorix/go-diameter/v4/diam"
 	"github.com/fiorix/go-diameter/v4/diam/avp"
 	"github.com/fiorix/go-diameter/v4/diam/datatype"
@@ -10,40 +8,7 @@ import (
 	"github.com/fiorix/go-diameter/v4/diam/sm/smpeer"
 )
 
-var zzEOF = io.EOF
-
 // C11: a CER is accepted exactly when a common application exists.
-
-// zzSup is the reference "the local dictionary supports application id with this type" (DESIGN B.6),
-// computed over the public list of loaded applications: a declaration of the id with that type, or
-// without a type (an untyped declaration serves every type).
-func zzSup(id uint32, typ string) bool {
-	for _, a := range dict.Default.Apps() {
-		if a.ID == id && (a.Type == typ || a.Type == "") {
-			return true
-		}
-	}
-	return false
-}
-
-type zzAppAVP struct {
-	id   uint32
-	acct bool
-}
-
-func zzSettings(withAddrs bool) *Settings {
-	s := &Settings{
-		OriginHost:       datatype.DiameterIdentity("srv.example"),
-		OriginRealm:      datatype.DiameterIdentity("example"),
-		VendorID:         13,
-		ProductName:      "zz",
-		FirmwareRevision: 1,
-	}
-	if withAddrs {
-		s.HostIPAddresses = []datatype.Address{datatype.Address([]byte{192, 0, 2, 1}), datatype.Address([]byte{192, 0, 2, 2})}
-	}
-	return s
-}
 
 // zzBuildCER assembles a CER from symbolic parts and returns the reference facts about it.
 func zzBuildCER(kmax int, variant int) (m *diam.Message, oh, or bool, inbandPresent bool, inband uint32, apps []zzAppAVP) {
@@ -109,15 +74,6 @@ func zzBuildCER(kmax int, variant int) (m *diam.Message, oh, or bool, inbandPres
 		}
 	}
 	return
-}
-
-func zzU32AVP(m *diam.Message, code uint32) (uint32, bool) {
-	a, err := m.FindAVP(code, 0)
-	if err != nil {
-		return 0, false
-	}
-	v, ok := a.Data.(datatype.Unsigned32)
-	return uint32(v), ok
 }
 
 func zzC11_cer() {
